@@ -178,8 +178,8 @@ CLAIMED = {
         "entry creation, slices through __getitem__ (bounded only), `history clear`. Trusted: pyvc engine + models + z3.",
    design="§3 C12"),
  "C09": dict(
-   category="proof",
-   text="Effect-trace contracts on the exit paths that must undo things, for all pipeline lengths and every failing external: CommandPipeline.__init__ "
+   category="other",
+   text="PARTIAL - deductive proof of the clauses listed here on the real source, bounded stand-ins (never counted as proved) for the rest of the property. Effect-trace contracts on the exit paths that must undo things, for all pipeline lengths and every failing external: CommandPipeline.__init__ "
         "(SubprocSpec objects as records in list slots; loop invariants): stages run once each, in order; when stage i cannot be spawned the "
         "constructor starts nothing further, returns the terminal exactly once, closes every stage from i on in order and leaves no process "
         "handle; otherwise the last stage is the pipeline's process and nothing is closed. PopenThread.__init__: every exception of the spawn "
@@ -196,8 +196,8 @@ CLAIMED = {
         "statements of PopenThread.__init__ other than the spawn do not raise once handlers are installed. Trusted: pyvc engine + models + z3/cvc5.",
    design="§3 C09"),
  "C06": dict(
-   category="proof",
-   text="The reader queue, consumer and producer side, as sequential effect-trace contracts on the real source: QueueReader.readlines (polling form) and "
+   category="other",
+   text="PARTIAL - deductive proof of the clauses listed here on the real source, bounded stand-ins (never counted as proved) for the rest of the property. The reader queue, consumer and producer side, as sequential effect-trace contracts on the real source: QueueReader.readlines (polling form) and "
         "_read_all_lines return exactly the lines of every chunk they dequeued, in order - nothing dropped, nothing twice (loop invariant lines == "
         "flat(dequeued), flat given by its two defining axioms); read_queue dequeues one chunk per call and nothing on a timeout; is_fully_read answers "
         "True only with `closed` set and with emptiness sampled LAST, after the producer thread was seen finished (the only sampling order that is right "
@@ -229,8 +229,8 @@ CLAIMED = {
         "file-system changes DURING one lookup. Trusted: pyvc engine + models + z3.",
    design="§3 C08"),
  "C02": dict(
-   category="proof",
-   text="The scope-stack bookkeeping of CtxAwareTransformer with `contexts` as a list of name sets (sets live by value in their list slot): ctxadd / ctxupdate bind "
+   category="other",
+   text="PARTIAL - deductive proof of the clauses listed here on the real source, bounded stand-ins (never counted as proved) for the rest of the property. The scope-stack bookkeeping of CtxAwareTransformer with `contexts` as a list of name sets (sets live by value in their list slot): ctxadd / ctxupdate bind "
         "in the innermost scope and leave every other scope unchanged; ctxremove unbinds the name in the innermost scope that has it and nowhere else (loop "
         "invariant over the reversed stack; an outer binding of the same name stays, as in Python); visit_Global adds the names to the module scope "
         "contexts[1] only, at any nesting depth; visit_ClassDef / visit_FunctionDef give the name to the enclosing scope, open a fresh EMPTY scope before "
@@ -244,8 +244,8 @@ CLAIMED = {
         "_SubprocChainRaiseWrapper. Trusted: pyvc engine + set-slot model + z3/cvc5.",
    design="§3 C02"),
  "C03": dict(
-   category="proof",
-   text="tools.get_logical_line for ALL sources and line indices: the logical line containing line i starts at the FIRST line of the maximal chain of continuation "
+   category="other",
+   text="PARTIAL - deductive proof of the clauses listed here on the real source, bounded stand-ins (never counted as proved) for the rest of the property. tools.get_logical_line for ALL sources and line indices: the logical line containing line i starts at the FIRST line of the maximal chain of continuation "
         "links ending at i (a link = previous line ends with a continuation, or the text before ends inside an open triple-quoted string) - loop invariant for "
         "the backward walk with a termination variant, for chains of any length; it spans >= 1 lines and stays inside the source (second loop, with "
         "variant). Bounded stand-ins (not proved): 11 command lines x 1..4 (thorough 5) physical lines x 7 statement positions (top level, after `;`, if / for-in-def "
@@ -257,8 +257,8 @@ CLAIMED = {
         "CtxAwareTransformer.try_subproc_toks / _column_window, the lexer's whitespace synthesis. Trusted: pyvc engine + models + z3.",
    design="§3 C03"),
  "C04": dict(
-   category="proof",
-   text="tools.expand_path for ALL words and switch settings, with os.path.expanduser / expandvars as ghost functions: a word is returned untouched when both expansions are off; "
+   category="other",
+   text="PARTIAL - deductive proof of the clauses listed here on the real source, bounded stand-ins (never counted as proved) for the rest of the property. tools.expand_path for ALL words and switch settings, with os.path.expanduser / expandvars as ghost functions: a word is returned untouched when both expansions are off; "
         "with tilde expansion off the result is exactly the ($VAR-expanded) word; a plain word gets exactly one tilde expansion; for `key=value` the key is expanded, the `=` kept, "
         "and the result is key' = ':'.join(map(expanduser, value.split(':'))) - EACH colon-separated field expanded on its own, none dropped, added or merged (map over a sequence "
         "value is the uninterpreted sequence map_f(xs) with its two defining facts, so code and clause denote the same term). Bounded stand-in (not proved): 39 argument strings "
